@@ -75,7 +75,7 @@ impl Fmt {
 /// long names (metrics_buf / decl_buf / fields_buf), 2 one metric with >100 000 repeated
 /// observations (fields_buf and counts_buf), 3 split mode with a megabyte-sized dimension value
 /// (per-dimension-set buffers)
-fn huge_entry(mb_tenths: u8, tag: u8) -> GenEntry {
+pub fn huge_entry(mb_tenths: u8, tag: u8) -> GenEntry {
     let n = 1_100_000 + (mb_tenths as usize % 20) * 100_000;
     let ts = Op::Timestamp {
         secs: 1,
